@@ -34,6 +34,14 @@ STATUSES = ["ok", "ok", "ok", "ok", "missing", "syntax", "throws"]
 WHY = 'fn why(e) { if type(e) == ImportError { return "ImportError: " + e.context.split("\\n")[0]; } return String.from(type(e)); }'
 
 
+_CUR = {"graph": {}}
+
+
+def mpath(t):
+    """How the module named `t` is spelled in import statements (and registered with the loader): an optional directory prefix + name."""
+    return _CUR["graph"].get(t, {}).get("prefix", "") + t
+
+
 def module_source(name, spec):
     if spec["status"] == "syntax":
         return "var = ;\n"
@@ -56,16 +64,16 @@ def import_stmt(owner, t, site):
     # (the importer's global is read FIRST in the handler, before any call could re-synchronise the interpreter's notion of the running module)
     err = 'print("[" + secret + "] %s cannot import %s: " + why(e));' % (owner, t)
     if site == "top":
-        return ['try { import "%s"; %s } catch e { %s }' % (t, ok % (owner, t), err)]
+        return ['try { import "%s"; %s } catch e { %s }' % (mpath(t), ok % (owner, t), err)]
     if site == "alias":
-        return ['try { import "%s" as al_%s; %s } catch e { %s }' % (t, t, ok % (owner, "al_" + t), err)]
+        return ['try { import "%s" as al_%s; %s } catch e { %s }' % (mpath(t), t, ok % (owner, "al_" + t), err)]
     if site == "fn":
         f = "imp_%s_%s" % (owner, t)
-        return ['fn %s() { import "%s"; return %s.val; }' % (f, t, t),
+        return ['fn %s() { import "%s"; return %s.val; }' % (f, mpath(t), t),
                 'try { print("%s sees " + %s()); } catch e { %s }' % (owner, f, err)]
     # twice: second import must yield the same object and must not run the body again
     return ['try { import "%s"; import "%s" as again_%s; print("%s sees " + %s.val); print("%s same object " + String.from(%s == again_%s)); '
-            '%s.val = %s.val; } catch e { %s }' % (t, t, t, owner, t, owner, t, t, "again_" + t, t, err)]
+            '%s.val = %s.val; } catch e { %s }' % (mpath(t), mpath(t), t, owner, t, owner, t, t, "again_" + t, t, err)]
 
 
 def reference(graph, main_imports):
@@ -90,12 +98,12 @@ def reference(graph, main_imports):
 
     def load(t):
         """Returns None if the import succeeded, else the text that describes the error value."""
-        circular = "ImportError: Circular dependency encountered when importing module '%s'." % t
+        circular = "ImportError: Circular dependency encountered when importing module '%s'." % mpath(t)
         if t in registry:
             return None if registry[t] == "loaded" else circular
         spec = graph.get(t)
         if spec is None or spec["status"] == "missing":
-            return "ImportError: Unable to read file '%s.yl' (file not found)." % t
+            return "ImportError: Unable to read file '%s.yl' (file not found)." % mpath(t)
         if spec["status"] == "syntax":
             return "ImportError: Error compiling module:"
         registry[t] = "loading"
@@ -151,6 +159,9 @@ def gen_case(rng):
         k = rng.below(3)
         targets = [rng.choice(names + ["mz"]) for _ in range(k)]       # "mz" never exists; self-imports are allowed
         graph[nm] = {"status": st, "imports": [(t, rng.choice(["top", "alias", "fn", "twice"])) for t in targets]}
+        # the same module is always spelled the same way, but not always as a bare name
+        if rng.chance(1, 4):
+            graph[nm]["prefix"] = rng.choice(["./", "lib/", "./lib/", "../"])
     mi = [(rng.choice(names + ["mz"]), rng.choice(["top", "alias", "fn", "twice"])) for _ in range(1 + rng.below(3))]
     return graph, mi
 
@@ -171,7 +182,8 @@ def enumerate_cases():
 
 
 def build(graph, mi):
-    mods = {nm: module_source(nm, spec) for nm, spec in graph.items() if spec["status"] != "missing"}
+    _CUR["graph"] = graph
+    mods = {mpath(nm): module_source(nm, spec) for nm, spec in graph.items() if spec["status"] != "missing"}
     return main_source(mi), mods, reference(graph, mi)
 
 
@@ -313,13 +325,14 @@ def mod_lines(evs, graph):
     """import_start/import_finish events -> requests of the `mod` driver (loaded/loaderror/compileerror/abort derived from the graph)."""
     lines = ["reset"]
     stack = []
+    by_path = {spec.get("prefix", "") + nm: spec for nm, spec in graph.items()}
     for ev in evs:
         head, kv = events.parse(ev)
         if head == "import_start":
             p, state = kv["path"], kv["state"]
             lines.append("start %s %s" % (p, state))
             if state == "absent":
-                spec = graph.get(p)
+                spec = by_path.get(p)
                 if spec is None or spec["status"] == "missing":
                     lines.append("loaderror %s" % p)
                 elif spec["status"] == "syntax":
